@@ -163,10 +163,15 @@ def _extras(draw, rec, funcs=True, refelem=True, mesh=True):
             rec["targets"] = draw(st.lists(
                 st.sampled_from(spaces), min_size=1,
                 max_size=min(3, len(spaces)), unique=True))
-    if refelem and draw(st.integers(0, 3)) == 0:
-        rec["refelem"] = draw(st.lists(st.sampled_from(REF_ELEM), min_size=1,
-                                       max_size=3, unique=True))
-    if mesh and draw(st.integers(0, 4)) == 0:
+    want_mesh = mesh and draw(st.integers(0, 3)) == 0
+    # adjacent_face needs nfaces_re_h, which some (not all) reference-element
+    # properties pass as well: the two are drawn together more often, and
+    # mostly with one or two properties so that every subset is met
+    if refelem and draw(st.integers(0, 1 if want_mesh else 3)) == 0:
+        rec["refelem"] = draw(st.lists(
+            st.sampled_from(REF_ELEM), min_size=1,
+            max_size=draw(st.sampled_from([1, 1, 2, 3])), unique=True))
+    if want_mesh:
         rec["mesh"] = ["adjacent_face"]
     return rec
 
